@@ -133,6 +133,18 @@ CHECKS = {
    note="Trusted as C03, plus: user authenticators modelled as token predicates; the declarative spec picks bearer alternatives first among several "
         "accepted ones (the property leaves the choice open; theorems state membership). Dispatch itself is C03.",
    ref="DESIGN.md section 4 (C11)"),
+ "C14": dict(
+   technique="Coq proof that every guard shape around a partial operation (slice, index, func-value call, nil-able interface call, map store) in the emitted server code is sufficient, with the site inventory regenerated from the generator's current output by a translator and closed by computation; Coq proof of exactly-one-responder over the model of API.ServeHTTP + structured/mutational request fuzzing with recover() and WriteHeader counting (PARTIAL: stdlib internals are fuzzed, not proved)",
+   text="C14_every_site_classified (regenerated obligation, vm_compute) + C14_guards_suffice / C14_no_panic_at_any_site: each observed "
+        "site's guard class is one whose Go fragment, written with Panic-returning primitives, is proved never to reach Panic for any input "
+        "(prefix-checked slicing, Index-or-len slicing, splitPath, length-checked [0], range/make indexing, count-down loops, map made when "
+        "non-empty, nil-checked and defaulted calls; four classes rest on the property's preconditions). C14_one_response: for every spec, "
+        "API configuration and request exactly one responder acts. Tie: the translator re-inventories the sites of ~300 freshly generated "
+        "packages on every run; 1500 (quick) / 48000 (thorough) requests incl. malformed JSON and paths are served with recover() around "
+        "ServeHTTP and Parse() and a WriteHeader counter.",
+   note="PARTIAL: encoding/json, strconv, time, net/url, net/http internals, stack exhaustion and user code are outside the model; the "
+        "syntactic guard recognition of the translator is trusted.",
+   ref="DESIGN.md section 4 (C14)"),
  "C15": dict(
    technique="Coq proof over a nil-explicit document model that every dereference in the generator's front is guarded or guaranteed by the loader + structural mutation of real specs in worker subprocesses",
    text="C15_no_panic: over a document model with an explicit nil at every optional OpenAPI field the generator dereferences (schema of a media "
